@@ -66,7 +66,7 @@ func Main(args []string) {
 	seed := uint64(evidence.Seed())
 	rep := evidence.NewReporter("C04")
 	start := time.Now()
-	budget := 8 * time.Minute
+	budget := 12 * time.Minute
 	if tier == "thorough" {
 		budget = 22 * time.Minute
 	}
@@ -259,17 +259,17 @@ func Main(args []string) {
 		samples = samples[:4]
 	}
 	cov := map[string]any{
-		"evaluations":                         total,
-		"distinct_nontrivial":                 nontrivialLayouts + len(selectors),
-		"distinct_stored_layouts":             len(layouts),
-		"distinct_nontrivial_stored_layouts":  nontrivialLayouts,
-		"distinct_value_selectors_accepted":   len(selectors),
-		"values_refused_by_the_editing_api":   refused,
-		"rule":                                Rule,
-		"families":                            famInfo,
-		"counters":                            other,
-		"exhaustive":                          exhaustive,
-		"samples":                             samples,
+		"evaluations":                        total,
+		"distinct_nontrivial":                nontrivialLayouts + len(selectors),
+		"distinct_stored_layouts":            len(layouts),
+		"distinct_nontrivial_stored_layouts": nontrivialLayouts,
+		"distinct_value_selectors_accepted":  len(selectors),
+		"values_refused_by_the_editing_api":  refused,
+		"rule":                               Rule,
+		"families":                           famInfo,
+		"counters":                           other,
+		"exhaustive":                         exhaustive,
+		"samples":                            samples,
 	}
 	ev := evidence.Evidence{PropertyID: "C04", Tier: tier, Seed: int(seed), Level: "exploration", Coverage: cov,
 		Assumptions: []string{
